@@ -1,0 +1,12 @@
+//go:build verif
+
+// Verification contracts for cmd/proxy, property C30 (comment-only; read by /verif/govc).
+// This file contains no executable code.
+
+package main
+
+//@ func (m *lfsModule) streamDownloadWithVerify
+//@   requires m.s3Uploader != nil && m.logger != nil && m.metrics != nil && m.tracker != nil
+//@   loop 1 invariant tmpFile != nil && ghostStr(hasher, "hash.alg") == "sha256" && ghostStr(hasher, "hash.data") == ghostStr(tmpFile, "file.data") && written == int64(len(ghostStr(tmpFile, "file.data"))) && written >= 0
+//@   at WriteHeader#1 before assert [C30.stream_sha256_matches] lfsHexEncode(lfsHashDigest("sha256", ghostStr(tmpFile, "file.data"))) == expectedSHA
+//@   at WriteHeader#1 before assert [C30.stream_size_matches] int64(len(ghostStr(tmpFile, "file.data"))) == expectedSize
